@@ -29,13 +29,15 @@
 EXTENDS PathMatch, TLC, Json, IOUtils, C17Data
 
 (* texts denoting entity i under every / some reading *)
-TextsAll(rs, d) == {t \in UNION {SuffixTexts(r, d) : r \in rs} : \A r \in rs : t \in SuffixTexts(r, d)}
-TextsAny(rs, d) == UNION {SuffixTexts(r, d) : r \in rs}
+TextsOf(rs, d)  == [r \in rs |-> SuffixTextsFast(r, d)]     \* = SuffixTexts(r, d)
+TextsAny(rs, d) == LET S == TextsOf(rs, d) IN UNION {S[r] : r \in rs}
+TextsAll(rs, d) == LET S == TextsOf(rs, d) IN {t \in UNION {S[r] : r \in rs} : \A r \in rs : t \in S[r]}
 
-FnAll   == [i \in DOMAIN Fns   |-> TextsAll(Fns[i], FnDelim)]
-FnAny   == [i \in DOMAIN Fns   |-> TextsAny(Fns[i], FnDelim)]
-FileAll == [i \in DOMAIN Files |-> TextsAll(Files[i], FileDelim)]
-FileAny == [i \in DOMAIN Files |-> TextsAny(Files[i], FileDelim)]
+(* (LET-bound copies: TLC re-evaluates a large literal of another module on every reference otherwise) *)
+FnAll   == LET F == Fns   IN [i \in DOMAIN F |-> TextsAll(F[i], FnDelim)]
+FnAny   == LET F == Fns   IN [i \in DOMAIN F |-> TextsAny(F[i], FnDelim)]
+FileAll == LET F == Files IN [i \in DOMAIN F |-> TextsAll(F[i], FileDelim)]
+FileAny == LET F == Files IN [i \in DOMAIN F |-> TextsAny(F[i], FileDelim)]
 
 FnAnswer(k) ==
     [q |-> "fn", k |-> k,
